@@ -19,6 +19,16 @@ CHECKS = {
    text="TLC enumerates every circuit of up to 2 gates over 2 inputs (all wirings, fan-out, a=b) with every input and every permute-bit assignment of every label atom (3.8M states) plus simulated 3x3 circuits, checking ActIsLabel/Decodes/FreeXor/TweakSync/RowsSent; each enumerated (circuit,input) is run on the real code with 16/24/32-byte keys and fresh randomness and every wire is compared with the predicted bit; recorded real runs are validated against the symbolic spec with the permute bits bound to the observed ones.",
    note="Trusts TLC and the symbolic abstraction of AES as independent pads; internal permute bits are observed, not forced (coverage of (op,pa,pb,va,vb) tuples is reported).",
    ref="5 C01"),
+ "C02": dict(
+   technique="TLA+ spec TwoParty.tla (Garbler/Evaluator statement order over the symbolic labels of Garble.tla, ideal OT) model-checked by TLC (Agreement/Correct/NoError/termination); every enumerated session replayed on real circuit.Garbler/Evaluator with RSA/CO/COT/COT-malicious over a fragmenting transport; observed results validated as behaviours of the spec (TwoPartyTrace.tla)",
+   text="TLC checks the protocol model for every circuit of <= 2 gates, every split of the inputs between the parties (incl. 0-bit parties), every output count and input; the same enumeration (17k sessions; a seeded sample in the quick tier) is executed on the real code with all four OT flavours and random read fragmentation, together with compiled MPCL programs (multi-output, odd widths, inputs wider than the OT extension blocks, concurrent sessions on one shared circuit value); recorded results and OT usage must be the spec's.",
+   note="Trusts TLC, ideal OT in the model (real OT is exercised by the sessions), the harness transport.",
+   ref="5 C02"),
+ "C04": dict(
+   technique="TLA+ knowledge-set invariants (NoPair/NoRDiff/NoR over everything the garbler transmits) model-checked on TwoParty.tla; real transcripts of whole-circuit (4 OT flavours), streaming and sha2pc sessions scanned at every byte offset against R recomputed from recorded randomness, events validated by TLC against SecrecyTrace.tla",
+   text="The model's `sent` set (tables, own-input labels, OT-released labels) satisfies NoPair/NoRDiff/NoR for all circuits <= 2 gates; on the real code every byte the garbler writes is recorded, all labels are recomputed by re-garbling from the recorded randomness, every 16-byte window at every offset is classified (label of wire w / differs by R from another window / equals R) and the resulting event trace must satisfy the same invariants in TLC; the labels handed to OT.Send must be exactly the evaluator's input wires, once.",
+   note="Trusts TLC, ideal OT, the recomputation of R (cross-checked against the transcript and the OT wire pairs); window collisions have probability ~2^-100.",
+   ref="5 C04"),
 }
 
 NOT_APPLICABLE = {}
